@@ -467,6 +467,16 @@ func accCase(w *gal.Writer, backend int, setup []setupOp, users []cuser, groups 
 		}()
 		before[i] = statOf(pre, specHome(u))
 	}
+	// Validate's verdict on the configured accounts (on a copy: Validate fills in defaults)
+	validateOK := false
+	func() {
+		defer func() {
+			if r := recover(); r != nil {
+				fmt.Printf("IMPL-VIOLATION tag=validate-panic {\"panic\":%q}\n", fmt.Sprint(r))
+			}
+		}()
+		validateOK = mkIC(users, groups, runAs).Validate() == nil
+	}()
 	ic := mkIC(users, groups, runAs)
 	var err error
 	func() {
@@ -512,8 +522,8 @@ func accCase(w *gal.Writer, backend int, setup []setupOp, users []cuser, groups 
 	for i, g := range groups {
 		cg[i] = fmt.Sprintf("(mkCG %s %s %s)", gal.Str(g.Name), gal.N(uint64(g.GID)), gal.StrList(g.Members))
 	}
-	term := fmt.Sprintf("{| a_backend := %s; a_setup := %s; a_users := %s; a_groups := %s; a_run_as := %s; ao_err := %s; ao_run_as := %s; ao_passwd := %s; ao_group := %s; ao_old_users := %s; ao_old_groups := %s; ao_users := %s; ao_groups := %s; ao_impl_old_users := %s; ao_impl_old_groups := %s; ao_impl_users := %s; ao_impl_groups := %s; ao_homes := %s; ao_dump := %s; ao_layer := %s |}",
-		gal.Nat(backend), galSetup(kept), gal.List(cu), gal.List(cg), gal.Str(runAs), gal.Bool(err != nil), gal.Str(ic.Accounts.RunAs),
+	term := fmt.Sprintf("{| a_backend := %s; a_setup := %s; a_users := %s; a_groups := %s; a_run_as := %s; ao_validate_ok := %s; ao_err := %s; ao_run_as := %s; ao_passwd := %s; ao_group := %s; ao_old_users := %s; ao_old_groups := %s; ao_users := %s; ao_groups := %s; ao_impl_old_users := %s; ao_impl_old_groups := %s; ao_impl_users := %s; ao_impl_groups := %s; ao_homes := %s; ao_dump := %s; ao_layer := %s |}",
+		gal.Nat(backend), galSetup(kept), gal.List(cu), gal.List(cg), gal.Str(runAs), gal.Bool(validateOK), gal.Bool(err != nil), gal.Str(ic.Accounts.RunAs),
 		gal.Str(newP), gal.Str(newG), galUsers(ou, okou), galGroups(og, okog), galUsers(nu, oknu), galGroups(ng, okng),
 		implOldU, implOldG, implNewU, implNewG,
 		gal.List(homes), galDump(dump), galDump(layer))
@@ -591,6 +601,24 @@ func accCorpus(w *gal.Writer) {
 		a("group without members is read back without members (fix 4aa2cd2)", append(withPasswd(stdPasswd), setupOp{Op: "write", Path: "etc/group", Arg: "nobody:x:65534:\nwheel:x:10:root\nodd:x:11:,\n", Perm: 0o644}),
 			nil, []cgroup{{Name: "nomembers", GID: 77}, {Name: "one", GID: 78, Members: []string{"root"}}}, "")
 		a("nothing configured", withPasswd(stdPasswd), nil, nil, "root")
+		// configured groups colliding with a package-provided entry, every kind (seeded C13-6 is the last one)
+		withGroup := append(withPasswd(stdPasswd), setupOp{Op: "write", Path: "etc/group", Arg: stdGroup, Perm: 0o644})
+		a("group collision: same name, other gid", withGroup, nil, []cgroup{{Name: "bin", GID: 7, Members: []string{"app"}}}, "")
+		a("group collision: same gid, other name", withGroup, nil, []cgroup{{Name: "binaries", GID: 1, Members: []string{"app"}}}, "")
+		a("group collision: same name and gid, other members (seeded C13-6)", withGroup, nil, []cgroup{{Name: "bin", GID: 1, Members: []string{"app"}}}, "")
+		a("group collision: identical line", withGroup, nil, []cgroup{{Name: "bin", GID: 1, Members: []string{"root", "bin", "daemon"}}}, "")
+		a("group collision: the same configured group twice, and one without members colliding with nogroup", withGroup, []cuser{{Name: "app", UID: 1000}},
+			[]cgroup{{Name: "g", GID: 5, Members: []string{"app"}}, {Name: "g", GID: 5, Members: []string{"app"}}, {Name: "nogroup", GID: 65533}}, "")
+		// configured fields holding ':' / newline / blanks are written verbatim (finding C13-F5)
+		a("shell with a newline adds a uid-0 line (C13-F5)", baseEtc, []cuser{{Name: "app", UID: 1000, Shell: "/bin/sh\nroot2:x:0:0::/root:/bin/sh"}}, nil, "")
+		a("user name with a colon (C13-F5)", baseEtc, []cuser{{Name: "a:b", UID: 1000}}, nil, "")
+		a("home with a colon (C13-F5)", withPasswd(stdPasswd), []cuser{{Name: "app", UID: 1000, Home: "/home/a:b"}}, nil, "app")
+		a("user name ending in a newline (C13-F5)", baseEtc, []cuser{{Name: "app\n", UID: 1000, Home: "/home/app"}}, nil, "")
+		a("user name with a leading blank, shell with a trailing blank (C13-F5)", baseEtc, []cuser{{Name: " app", UID: 1000, Home: "/home/app"}, {Name: "svc", UID: 1001, Shell: "/bin/sh "}}, nil, "")
+		a("group name with a colon, member with a comma and a newline (C13-F5)", withGroup, nil, []cgroup{{Name: "g:h", GID: 7, Members: []string{"a,b"}}}, "")
+		a("group member with a newline adds a line (C13-F5)", withGroup, nil, []cgroup{{Name: "g", GID: 7, Members: []string{"a\nroot:x:0:app"}}}, "")
+		a("configured uid 0 and empty names are refused by Validate", baseEtc, []cuser{{Name: "zero", UID: 0}}, []cgroup{{Name: "", GID: 9}}, "")
+		a("empty user name is refused by Validate", baseEtc, []cuser{{Name: "", UID: 5, Home: "/home/none"}}, nil, "")
 	}
 }
 
